@@ -270,7 +270,13 @@ def make_stub(callee, caller_label):
 
     def stub(*args, **kwargs):
         c = ctx()
-        ba = sig.bind(*args, **kwargs)
+        try:
+            ba = sig.bind(*args, **kwargs)
+        except TypeError:
+            # the callee's signature no longer matches its sidecar contract (refactored internals): the contract
+            # cannot be used here, so the callee's REAL body is executed inline instead
+            c.used_prelude.add("inlined (contract does not bind): " + callee.target)
+            return real(*args, **kwargs)
         ba.apply_defaults()
         a = Args(dict(ba.arguments))
         c.used_prelude.add("contract-stub:" + callee.target)
@@ -433,7 +439,10 @@ def verify_path(contract, cfg, c, prop="", replay_hook=None):
             args, kwargs = contract.setup(B, cfg)
         finally:
             c.in_spec -= 1
-        a = contract.bind(args, kwargs)
+        try:
+            a = contract.bind(args, kwargs)
+        except TypeError as e:
+            raise Unsupported("the contract of %s does not bind to the function's current signature: %s" % (contract.target, e))
         a.old = freeze(Args({k: v for k, v in vars(a).items()}))  # pre-state snapshot of the arguments
         out.args = (args, kwargs)
         c.in_spec += 1
